@@ -53,9 +53,15 @@ def anchors():
     return m
 
 
-def run(root, files=None, max_per_file=40, seed=1):
+def run(root, files=None, max_per_file=40, seed=1, only=None):
     repo, v = os.path.join(root, "repo"), os.path.join(root, "verif")
-    env = dict(GOENV, VERIF_REPO=repo, VERIF_SKIP_LEAN="1", VERIF_SIM_DEADLINE_MS="5000", VERIF_REAL_DEADLINE_MS="15000")
+    # a build cache of its own, emptied now and then: every mutant leaves objects behind (the shared cache grew to
+    # 127 GB during the first sweep)
+    gocache = os.path.join(root, "gocache")
+    GOENV["GOCACHE"] = gocache
+    env = dict(GOENV, VERIF_REPO=repo, VERIF_SKIP_LEAN="1", VERIF_SIM_DEADLINE_MS="5000", VERIF_REAL_DEADLINE_MS="15000",
+               VERIF_CASE_DEADLINE_MS="30000")
+    done = 0
     anch = anchors()
     rnd = random.Random(seed)
     todo = files or sorted(f for f in anch if f.endswith(".go") and os.path.exists(os.path.join(repo, f))
@@ -69,8 +75,13 @@ def run(root, files=None, max_per_file=40, seed=1):
         rnd.shuffle(pts)
         # the C01/C15/C20 real-content checks are slow; keep to the model-backed ones unless the file has nothing else
         props = [p for p in anch.get(f, []) if p not in ("C01", "C15")] or anch.get(f, [])
+        if only is not None:
+            pts = [p for p in pts if (f, int(p[0])) in only]
         for k, line, op, detail in pts[:max_per_file]:
             t0 = time.time()
+            done += 1
+            if done % 40 == 0:
+                sh(["rm", "-rf", gocache])
             rec = {"file": f, "k": int(k), "line": int(line), "op": op, "detail": detail, "props": props}
             try:
                 rc, o = sh([os.path.join(root, "mutate"), "apply", src, k, src])
@@ -127,5 +138,10 @@ if __name__ == "__main__":
             else:
                 a = a[1:]
         run(root, files, mx, seed)
+    elif cmd == "recheck":
+        # the survivors of an earlier sweep (its results file) against the current copy
+        rows = [json.loads(l) for l in open(sys.argv[3])]
+        only = {(r["file"], r["k"]) for r in rows if r["status"] == "survived"}
+        run(root, sorted({f for f, _ in only}), 10 ** 6, 1, only)
     else:
         report(root)
